@@ -202,6 +202,7 @@ func genCase(t *rapid.T) Case {
 		return rapid.SampledFrom([]int{-1, -2, -3, len(md.slots), len(md.slots) + 7}).Draw(t, "unkh")
 	}
 	// per-case bias so that both many-readers and writer-centred sequences are frequent
+	didProduct := false // at most one full scan-option product per case (360 requests)
 	bias := rapid.SampledFrom([]string{"mixed", "readers", "writer"}).Draw(t, "bias")
 	for i := 0; i < n; i++ {
 		w, nr := md.writer(), md.readers()
@@ -210,6 +211,7 @@ func genCase(t *rapid.T) Case {
 		free := w < 0 && nr == 0
 		var ch []weighted
 		add := func(op string, wt int) { ch = append(ch, weighted{op, wt}) }
+		add("skip", 1) // first choice = smallest draw: shrinking removes requests this way
 		if len(open) > 0 { // leave room for requests on the handles
 			add("get", 2)
 			add("put", 3)
@@ -226,6 +228,14 @@ func genCase(t *rapid.T) Case {
 			add("badhandle", 2)
 		}
 		add("batchedge", 1) // 0 or 1001 operations: never takes the lock
+		if !didProduct && !md.hasBig() { // 360 answers: not while a 10 MiB value is listed
+			if w < 0 {
+				add("scanproduct", 1)
+			}
+			if len(open) > 0 {
+				add("txscanproduct", 1)
+			}
+		}
 		if w < 0 {
 			add("scan", 4)
 			add("stats", 1)
@@ -274,6 +284,9 @@ func genCase(t *rapid.T) Case {
 		var r Req
 		anyOpen := func() int { return open[rapid.IntRange(0, len(open)-1).Draw(t, "h")] }
 		op := pick(t, ch)
+		if op == "skip" {
+			continue
+		}
 		switch op {
 		case "get", "del":
 			r = Req{Op: op, K: goodKey()}
@@ -285,6 +298,13 @@ func genCase(t *rapid.T) Case {
 			r = Req{Op: "put", K: goodKey(), V: v}
 		case "nodeinfo", "stats":
 			r = Req{Op: op}
+		case "scanproduct", "txscanproduct":
+			didProduct = true
+			h := -1
+			if op == "txscanproduct" {
+				h = anyOpen()
+			}
+			r = Req{Op: "scanproduct", H: h, Seeds: []int{goodKey(), rapid.IntRange(0, 2).Draw(t, "plen"), goodKey(), rapid.IntRange(0, 2).Draw(t, "slen"), goodKey(), goodKey()}}
 		case "scan":
 			r = Req{Op: "scan", H: -1, Scan: genScan(t, &c, md, -1)}
 		case "begin_ro":
